@@ -14,6 +14,11 @@ CHECKS = {
    note="Trusted: Coq kernel; the translator (regex reader of Rust declarations); serde_derive behaves as modelled (validated: serde_json::to_value of every generated value equals the model's ser, and de of it returns the value); serde_json/serde_yaml/yaml-rust/textwrap/ryu text layers are NOT modelled (tested only).",
    technique="Coq proof over translator-generated serde shapes + differential correspondence through serde_json/serde_yaml",
    design="5/C18"),
+ "C20": dict(
+   text="Theorem: iterating a hash map's entries through a sort by key gives the same sequence for every iteration order the map may have (any permutation of entries with distinct keys), and without the sort it does not (refuted with a two-layer witness) -- this is the mechanism of the repaired exporters. The tie to the code is a differential run: generated hierarchical GDSII streams and multi-layer LEF texts are pushed through every conversion chain (GDSII->raw, LEF->raw, raw->GDSII, raw->protobuf->raw, raw->LEF) repeatedly inside one process and in several separate processes (fresh hash seeds), printed order-preservingly and compared. Partial: hash seeds are sampled, not quantified.",
+   note="Trusted: Coq kernel; the order-preserving printer in harness/src/bin/c20.rs; sampling of per-process hash seeds (4 processes quick, 16 thorough; 4-8 repetitions per process). Conversions whose code iterates no hash map are deterministic by construction; that they iterate none is supported by the repeated runs only. Gridded-layout compilation is covered through C08's harness in thorough tier only when available.",
+   technique="Coq theorem on order-oracle independence of sorted iteration + repeated-run differential check across processes",
+   design="5/C20"),
 }
 REASON_PENDING = "not yet built in this round; planned in DESIGN.md section 5 (Coq model + correspondence)"
 def main():
